@@ -80,6 +80,10 @@ def c01_families(run):
         Family("ipv4deep", "01.", 8 if q else 10, prefixes=["http://"], invariants=inv),
         Family("ipv6deep", "1:.", 7 if q else 9, prefixes=["http://["], suffixes=["]"], invariants=inv),
         # two zero runs (ties between runs, a run at the end): the compression choice of the serializer
+        # the port position: ASCII digits, digits of other scripts (full-width, Arabic-Indic - not ASCII digits: failure), terminators
+        Family("portchars", [0x30, 0x39, 0x37, 0xFF11, 0x0661, ord(":"), ord("/"), ord(L)], 3, prefixes=["http://h:", "x://h:8", "ws://[::1]:"], suffixes=["", "/p"], invariants=inv),
+        # zero pieces before, inside and AFTER the run the serializer compresses (its output must parse back to the same address)
+        Family("v6zeros", "01:", 6 if q else 7, prefixes=["http://[", "x://[1:"], suffixes=["]/"], invariants=inv),
         Family("ipv6ties", "01:", 5 if q else 6, frames=[("http://[1:0:0:", ":0:0]/"), ("x://[0:0:", ":0:0:0]"), ("http://[1:", "::]")], invariants=inv),
         Family("brackets", "[]:1", 6 if q else 7, prefixes=["http://", "x://"], suffixes=["/"], invariants=inv),
         Family("dotdeep", "./" + L, 7 if q else 9, prefixes=["http://h/a/b/", "x:/a/"], bases=[] , invariants=inv),
@@ -224,7 +228,7 @@ def check_c03(run):
     fams = c01_families(run)
     for f in fams:
         f.invariants.append("RoundTripInv")     # design: the standard round-trips on every parser output of the family
-    keep = {"struct", "host", "path", "file", "class", "brackets", "dotdeep"} if run.tier == "quick" else None
+    keep = {"struct", "host", "path", "file", "class", "brackets", "dotdeep", "ipv6ties", "v6zeros"} if run.tier == "quick" else None
     for fam in fams:
         if keep and fam.name not in keep:
             continue
@@ -269,9 +273,11 @@ def check_c19(run):
     run.build_harness()
     run.selftest()
     run_api_families(run, history_families(run) + (setter_families(run)[:1] if run.tier == "quick" else setter_families(run)[:2]), keys="derived,hostname,port,href", spmodes="late")
-    fams = [f for f in c01_families(run) if f.name in ("host", "ipv4deep", "brackets")]
+    fams = [f for f in c01_families(run) if f.name in ("host", "ipv4deep", "brackets", "struct")]     # struct: every shape of URL (opaque / host-less / empty components)
     for f in fams:
         f.invariants += ["GettersInv"]
+        if f.name == "struct":
+            f.maxlen = 3 if run.tier == "quick" else 4
     # address VALUES of every kind (the host-kind accessors must not depend on which address it is): IPv4-mapped / -compatible / NAT64 / link-local /
     # multicast / documentation IPv6 prefixes and loopback / broadcast / unspecified / multicast / link-local IPv4 ranges, completed over a small alphabet
     q = run.tier == "quick"
@@ -574,6 +580,10 @@ def check_c08(run):
         # the dotted-decimal tail at the 255 / 256 boundary and beyond (every octet position; numbers of up to four digits, leading zeros)
         HostFamily("v6tail_last", alphabet="02569", maxlen=4, minlen=1, hpre="::1.2.3.", hsuf="", frames=[("http://[", "]/"), ("x://[", "]/")], invariants=["V6TextInv"]),
         HostFamily("v6tail_first", alphabet="02569", maxlen=4, minlen=1, hpre="1::", hsuf=".2.3.4", frames=[("http://[", "]/")], invariants=["V6TextInv"]),
+        # addresses that are (nearly) full before a '::' or further pieces arrive: the piece count at the '::' and at the end
+        HostFamily("v6full6", alphabet="1:0", maxlen=5, minlen=1, hpre="1:1:1:1:1:1:", hsuf="", frames=[("http://[", "]/"), ("x://[", "]/")], invariants=["V6TextInv"]),
+        HostFamily("v6full8", alphabet=":1", maxlen=3 if q else 4, minlen=0, hpre="1:2:3:4:5:6:7:8", hsuf="", frames=[("http://[", "]/")], invariants=["V6TextInv"]),
+        HostFamily("v6full7c", alphabet=":1", maxlen=3 if q else 4, minlen=0, hpre="::2:3:4:5:6:7", hsuf="", frames=[("http://[", "]/")], invariants=["V6TextInv"]),
         HostFamily("v6tail_mid", alphabet="02569.", maxlen=4 if q else 5, minlen=1, hpre="1:2:3:4:5:6:1.", hsuf=".4", frames=[("http://[", "]/")], invariants=["V6TextInv"]),
     ]
     run_host_families(run, fams, keys="std,ipv6")
@@ -599,6 +609,9 @@ def check_c09(run):
     fams = [
         HostFamily("domtext", alphabet=L + L.upper() + "xn-._%412eZ", maxlen=4 if q else 5, frames=[("https://", "/"), ("file://", "/p")]),
         HostFamily("domforbidden", alphabet=L + " ^|<>%257f\x7f\x00", maxlen=3 if q else 4, frames=[("https://", "/")]),
+        # around "localhost": only exactly that host becomes the empty host of a file URL - not with a root label, a further label, a prefix, ...
+        HostFamily("domlocalhost", alphabet=".%2eEaL", maxlen=3, hpre="localhost", frames=[("file://", "/x"), ("https://", "/"), ("file://a", "/")]),
+        HostFamily("domlocalhost2", alphabet=".%2eaL", maxlen=2, hsuf="localhost", frames=[("file://", "/x")]),
     ]
     run_host_families(run, fams, keys="std")
     # relational part: spelling classes, including non-ASCII labels (no IDNA table needed for a relation)
@@ -698,7 +711,8 @@ def check_c14(run):
         elif p.returncode != 0 or m is None:
             raise Infra("conc driver failed (exit %d): %s %s" % (p.returncode, p.stdout[-1500:], p.stderr[-1500:]))
         if "CONC-MISMATCH" in p.stdout or "CONC-TABLES-CHANGED" in p.stdout:
-            run.violation("a concurrent call returned something else than when run alone: " + p.stdout[:600], {"property": "C14", "kind": "result", "seed": run.seed * 100 + i, "output": p.stdout[:5000]}, "res")
+            what = "a package-level table was written after the package's initialisation: " if "CONC-TABLES-CHANGED" in p.stdout else "a concurrent call returned something else than when run alone: "
+            run.violation(what + p.stdout[:600], {"property": "C14", "kind": "result", "seed": run.seed * 100 + i, "output": p.stdout[:5000]}, "res")
         if m:
             import re as _re
             mm = _re.search(r"ws_events=(\d+) concurrent_calls=(\d+)", m)
@@ -1146,7 +1160,7 @@ def check_c02(run):
     run.coverage_notes["configurations_enumerated_by_tlc"] = cst["distinct"]
     run.samples.append("[MC_Config] TLC enumerates %d configurations (%s subsets of the 10 boolean options x up to %d valued options)" % (cst["distinct"], "pairwise" if q else "all 2^10", 2 if q else 1))
     nasty = [
-        Family("nasty", [0x110080, 0x1100FF, 0x1100C0, 0, ord("/"), ord(":"), ord("@"), ord("%"), ord("["), ord("\\"), ord("?"), ord("#"), ord(L), ord("|")], 2 if q else 3,
+        Family("nasty", [0x110080, 0x1100FF, 0x1100C0, 0, ord("/"), ord(":"), ord("@"), ord("%"), ord("["), ord("\\"), ord("?"), ord("#"), ord(L), ord("|"), ord(".")], 2 if q else 3,
                prefixes=["", "http://", "http://h/", "file:", "x:", "x://", "http://h:", "//"], invariants=["PtrOk"]),
         Family("nastyhost", [0x110080, 0x1100FF, ord("."), ord("a"), ord("%"), ord("1"), 0xE9], 3 if q else 4, prefixes=["http://", "file://", "x://"], suffixes=["", "/p"], invariants=["PtrOk"]),
     ]
